@@ -11,7 +11,9 @@
       (1+r+r²/3) exp(−r) = ∫_0^∞ (8/(3√π)) x⁴ e^{−x²} · exp(−g(x)·r²) dx
   (Proofs/C03MaternIntegrals.lean: Cauchy–Schlömilch integral by Glasser's substitution, then two
   integrations by parts).  [Substituting s = 1/(4x²) gives the usual inverse-gamma weights
-  `s^(−ν−1) e^{−1/(4s)}`, ν = 1/2, 3/2, 5/2.]
+  `s^(−ν−1) e^{−1/(4s)}`, ν = 1/2, 3/2, 5/2: `c0_mixture_rate`, `c2_mixture_rate`, `c4_mixture_rate`,
+  and the classical `exp_neg_eq_gaussian_mixture`:
+      exp(−r) = ∫_0^∞ (1/(2√π)) s^(−3/2) e^{−1/(4s)} · e^{−s r²} ds   (r ≥ 0).]
 
   Layer 3 (`c0_profile_gram_psd`, `c2_profile_gram_psd`, `c4_profile_gram_psd`,
   `profile_gram_psd`): the Gram matrix of every radial profile of the model is PSD, in every
@@ -26,7 +28,7 @@ import Mathlib.MeasureTheory.Integral.Bochner.Basic
 import Mathlib.MeasureTheory.Integral.Bochner.Set
 import Mathlib.MeasureTheory.Measure.Lebesgue.Basic
 
-open Matrix MeasureTheory
+open Matrix MeasureTheory Set MaternInt
 
 namespace Kernels
 
@@ -224,5 +226,85 @@ theorem profile_gram_psd (k : Kind) {n d : Nat} (l : Fin d → ℝ) (pts : Fin n
   · exact c0_profile_gram_psd l pts
   · exact c2_profile_gram_psd l pts
   · exact c4_profile_gram_psd l pts
+
+/-! ### The same mixtures in the rate parameter s = 1/(4x²): inverse-gamma weights -/
+
+/-- x-form integrands are integrable -/
+theorem integrableOn_mix (c : ℝ) (m : ℕ) {d : ℝ} (hd : 0 ≤ d) :
+    IntegrableOn (fun x : ℝ => c * x ^ m * Real.exp (-x ^ 2) * Real.exp (-(1 / (4 * x ^ 2) * d))) (Ioi 0) := by
+  simp only [mix_integrand c m hd]
+  exact (integrableOn_pow_mul_E m _).const_mul c
+
+/-- transfer of an x-form mixture identity to the rate form -/
+theorem rate_of_mix (φ : ℝ → ℝ) (a : ℝ) (k : ℕ)
+    (hφ : ∀ d : ℝ, 0 ≤ d → φ d = ∫ x in Ioi 0,
+      a * 4 ^ (k + 1) * x ^ (2 * k) * Real.exp (-x ^ 2) * Real.exp (-(1 / (4 * x ^ 2) * d)))
+    {d : ℝ} (hd : 0 ≤ d) :
+    IntegrableOn (fun s => wRate a (2 * k + 3) s * Real.exp (-(s * d))) (Ioi 0) ∧
+    φ d = ∫ s in Ioi 0, wRate a (2 * k + 3) s * Real.exp (-(s * d)) := by
+  constructor
+  · rw [integrableOn_comp_rate]
+    refine (integrableOn_mix (a * 4 ^ (k + 1)) (2 * k) hd).congr_fun (fun x hx => ?_) measurableSet_Ioi
+    exact (rate_integrand a k d hx).symm
+  · rw [integral_comp_rate, hφ d hd]
+    refine setIntegral_congr_fun measurableSet_Ioi fun x hx => ?_
+    exact (rate_integrand a k d hx).symm
+
+/-- `exp(−√d) = ∫_0^∞ w0(s) e^{−s d} ds`, `w0(s) = s^(−3/2) e^{−1/(4s)} / (2√π)` -/
+theorem c0_mixture_rate {d : ℝ} (hd : 0 ≤ d) :
+    IntegrableOn (fun s => wRate (1 / (2 * Real.sqrt Real.pi)) 3 s * Real.exp (-(s * d))) (Ioi 0) ∧
+    phi Kind.c0 d = ∫ s in Ioi 0, wRate (1 / (2 * Real.sqrt Real.pi)) 3 s * Real.exp (-(s * d)) := by
+  refine rate_of_mix (phi Kind.c0) (1 / (2 * Real.sqrt Real.pi)) 0 (fun d hd => ?_) hd
+  rw [c0_mixture hd]
+  have := sqrt_pi_ne_zero
+  refine setIntegral_congr_fun measurableSet_Ioi fun x _ => ?_
+  show _ = 1 / (2 * Real.sqrt Real.pi) * 4 ^ (0 + 1) * x ^ (2 * 0) * _ * _
+  congr 3
+  field_simp
+  norm_num
+
+/-- `(1+√d) exp(−√d) = ∫_0^∞ w2(s) e^{−s d} ds`, `w2(s) = s^(−5/2) e^{−1/(4s)} / (4√π)` -/
+theorem c2_mixture_rate {d : ℝ} (hd : 0 ≤ d) :
+    IntegrableOn (fun s => wRate (1 / (4 * Real.sqrt Real.pi)) 5 s * Real.exp (-(s * d))) (Ioi 0) ∧
+    phi Kind.c2 d = ∫ s in Ioi 0, wRate (1 / (4 * Real.sqrt Real.pi)) 5 s * Real.exp (-(s * d)) := by
+  refine rate_of_mix (phi Kind.c2) (1 / (4 * Real.sqrt Real.pi)) 1 (fun d hd => ?_) hd
+  rw [c2_mixture hd]
+  have := sqrt_pi_ne_zero
+  refine setIntegral_congr_fun measurableSet_Ioi fun x _ => ?_
+  show _ = 1 / (4 * Real.sqrt Real.pi) * 4 ^ (1 + 1) * x ^ (2 * 1) * _ * _
+  congr 3
+  field_simp
+
+/-- `(1+√d+d/3) exp(−√d) = ∫_0^∞ w4(s) e^{−s d} ds`, `w4(s) = s^(−7/2) e^{−1/(4s)} / (24√π)` -/
+theorem c4_mixture_rate {d : ℝ} (hd : 0 ≤ d) :
+    IntegrableOn (fun s => wRate (1 / (24 * Real.sqrt Real.pi)) 7 s * Real.exp (-(s * d))) (Ioi 0) ∧
+    phi Kind.c4 d = ∫ s in Ioi 0, wRate (1 / (24 * Real.sqrt Real.pi)) 7 s * Real.exp (-(s * d)) := by
+  refine rate_of_mix (phi Kind.c4) (1 / (24 * Real.sqrt Real.pi)) 2 (fun d hd => ?_) hd
+  rw [c4_mixture hd]
+  have := sqrt_pi_ne_zero
+  refine setIntegral_congr_fun measurableSet_Ioi fun x _ => ?_
+  show _ = 1 / (24 * Real.sqrt Real.pi) * 4 ^ (2 + 1) * x ^ (2 * 2) * _ * _
+  congr 3
+  field_simp
+  norm_num
+
+/-- The classical subordination formula, as stated in the brief: for `r ≥ 0`,
+    `exp(−r) = ∫_0^∞ (1/(2√π)) s^(−3/2) exp(−1/(4s)) · exp(−s r²) ds`. -/
+theorem exp_neg_eq_gaussian_mixture {r : ℝ} (hr : 0 ≤ r) :
+    Real.exp (-r) = ∫ s in Ioi 0,
+      (1 / (2 * Real.sqrt Real.pi) * s ^ (-(3 / 2) : ℝ) * Real.exp (-(1 / (4 * s)))) * Real.exp (-(s * r ^ 2)) := by
+  have h := (c0_mixture_rate (sq_nonneg r)).2
+  have e : phi Kind.c0 (r ^ 2) = Real.exp (-r) := by simp [phi, Real.sqrt_sq hr]
+  rw [← e, h]
+  refine setIntegral_congr_fun measurableSet_Ioi fun s _ => ?_
+  simp only [wRate]
+  norm_num
+
+/-- second proof of `c0_profile_gram_psd`, through the rate form of layer 1 -/
+theorem c0_profile_gram_psd_rate {n d : Nat} (l : Fin d → ℝ) (pts : Fin n → Fin d → ℝ) :
+    (gramMatrix (fun x z : Fin d → ℝ => phi Kind.c0 (r2 (List.ofFn l) (List.ofFn x) (List.ofFn z))) pts).PosSemidef :=
+  psd_of_gaussian_mixture (phi Kind.c0) (wRate (1 / (2 * Real.sqrt Real.pi)) 3)
+    (fun _ hs => wRate_nonneg (by positivity) 3 hs)
+    (fun _ hd => (c0_mixture_rate hd).1) (fun _ hd => (c0_mixture_rate hd).2) l pts
 
 end Kernels
